@@ -1778,6 +1778,10 @@ class C12(HistoryCheck):
         if r < 0.3:
             kn['approx_totals'] = {'method': rng.choice(['fd', 'fd', 'cs']), 'form': rng.choice(['forward', 'backward', 'central']),
                                    'step': rng.choice([1e-6, 1e-5])}
+            if kn['approx_totals']['method'] == 'fd' and world['solvers']['']['nl'] not in ('newton', 'broyden') \
+                    and rng.random() < 0.4:
+                # (under a top-level Newton the approximation is initialised at an iterate inside run_model)
+                kn['approx_totals']['step_calc'] = 'rel_avg'
         elif r < 0.5 and len(world['groups']) > 1:
             # A group that approximates its semi-totals presents itself as an explicit component (dR/dy =
             # -I); a gradient-based nonlinear solver on that same group would be handed that semi-total in
@@ -1810,6 +1814,8 @@ class C12(HistoryCheck):
         if g is not None:
             kn['group_approx'] = {g: {'method': rng.choice(['fd', 'cs']), 'form': rng.choice(['forward', 'central']),
                                       'step': rng.choice([1e-6, 1e-5])}}
+            if kn['group_approx'][g]['method'] == 'fd' and rng.random() < 0.4:
+                kn['group_approx'][g]['step_calc'] = 'rel_avg'
         kn['twin_colored'] = rng.random() < 0.4
         if kn.get('approx_totals') and world['solvers']['']['nl'] in ('newton', 'broyden'):
             # A model-level approximation coloring under a top-level gradient-based nonlinear solver is
